@@ -661,6 +661,9 @@ impl Compiler {
                 self.emit_opcode(OpCode::Jump);
                 self.emit_u16(JUMP_PLACEHOLDER);
 
+                // A function body starts without any enclosing loops: stop & volgende can not leave the function
+                let outer_loop_contexts = std::mem::take(&mut self.loop_contexts);
+
                 // Compile function in a new scope
                 self.symbols.new_context();
                 for p in parameters {
@@ -682,6 +685,7 @@ impl Compiler {
 
                 // Switch back to previous scope again
                 let num_locals = self.symbols.leave_context();
+                self.loop_contexts = outer_loop_contexts;
 
                 // Create function object and store as constant
                 let obj = Object::function(
